@@ -345,6 +345,13 @@ def run(ctx):
                 backends = ['synchronous', 'threads']
             if k % procs_every == 0:
                 backends.append('processes')
+            leads = [i for i, m in enumerate(spec['nodes']) if m['group'] == i and m['stateful']]
+            pairs = [(a, b) for a in leads for b in leads if a < b and max(1, spec['nodes'][a]['szout']) == max(1, spec['nodes'][b]['szout'])]
+            if pairs and k % 3 == 0:
+                # two stateful groups created from one builder object: each keeps its own (persisted) state
+                first, second = rng.choice(pairs)
+                spec['shared_builder'] = {str(second): first}
+                ctx.count('shared_builder_cases')
             if k % 2:  # actor names delivered through values that all builders render alike
                 spec['opaque'] = True
                 ctx.count('opaque_parameter_cases')
